@@ -1,17 +1,33 @@
 #!/usr/bin/env python3
-"""tools/run_seed.py <seed id, e.g. C12_A> [prop] [--tier quick|thorough]: apply the seeded change to /repo, run the check, undo."""
-import subprocess, sys
+"""tools/run_seed.py <seed id, e.g. C12_A> [prop] [--tier quick|thorough] [--inplace]
+Run a check against a seeded change. Default: on a scratch copy of /repo (VERIF_REPO), so that checks other
+sessions are running against /repo are not disturbed; --inplace applies it to /repo itself and undoes it."""
+import os, shutil, subprocess, sys, tempfile
 sid = sys.argv[1]
 rest = sys.argv[2:]
+inplace = "--inplace" in rest
+rest = [r for r in rest if r != "--inplace"]
 prop = rest.pop(0) if rest and not rest[0].startswith("-") else sid.split("_")[0]
 patch = "/verif/seeded/%s/patch.diff" % sid
-assert subprocess.run(["git", "-C", "/repo", "status", "--short", "src"], capture_output=True, text=True).stdout.strip() == "", "/repo not clean"
-assert subprocess.run(["git", "-C", "/repo", "apply", patch]).returncode == 0, "patch does not apply"
+env = dict(os.environ)
+if inplace:
+    assert subprocess.run(["git", "-C", "/repo", "status", "--short", "src"], capture_output=True, text=True).stdout.strip() == "", "/repo not clean"
+    assert subprocess.run(["git", "-C", "/repo", "apply", patch]).returncode == 0, "patch does not apply"
+    scratch = None
+else:
+    scratch = tempfile.mkdtemp(prefix="seedrun_")
+    subprocess.run(["rsync", "-a", "--exclude", ".git", "--exclude", "__pycache__", "/repo/src", scratch + "/"], check=True)
+    r = subprocess.run(["patch", "-p1", "-s", "-F3", "-d", scratch, "-i", patch], capture_output=True, text=True)
+    assert r.returncode == 0, "patch does not apply: " + r.stdout + r.stderr
+    env["VERIF_REPO"] = scratch
 try:
-    r = subprocess.run(["/verif/check", prop] + rest, capture_output=True, text=True)
+    r = subprocess.run(["/verif/check", prop] + rest, capture_output=True, text=True, env=env)
     lines = [l for l in r.stdout.splitlines() if not l.startswith("WARNING")]
     viol = [l for l in lines if l.startswith("VIOLATION")]
     print("\n".join(l[:300] for l in lines if not l.startswith("[%s] ok" % prop))[-3000:])
     print("SEED %s on %s: exit=%d violations=%d => %s" % (sid, prop, r.returncode, len(viol), "CAUGHT" if r.returncode == 1 and viol else "MISSED"))
 finally:
-    subprocess.run(["git", "-C", "/repo", "checkout", "--", "."])
+    if inplace:
+        subprocess.run(["git", "-C", "/repo", "checkout", "--", "."])
+    else:
+        shutil.rmtree(scratch, ignore_errors=True)
